@@ -67,12 +67,15 @@ GATED = {"Basic.Publish", "Basic.Ack", "Basic.Nack", "Basic.Reject", "Basic.Cons
 
 
 class FakeAMQP:
-    def __init__(self, head_expiry=True, requeue_original_position=True, qos_applies_to_existing=False):
+    def __init__(self, head_expiry=True, requeue_original_position=True, qos_applies_to_existing=False, deliver_before_confirm="never", rnd=None):
         self.q: dict[str, Q] = {}
         self.conns: list[Conn] = []
         self.head_expiry = head_expiry
         self.requeue_original_position = requeue_original_position
         self.qos_applies_to_existing = qos_applies_to_existing
+        # a consumer may receive a freshly published message before its publisher gets the confirm (both orders are legal)
+        self.deliver_before_confirm = deliver_before_confirm  # "never" | "always" | "random"
+        self.rnd = rnd
         self.log: list = []
         self.unknown: list = []
         self.gate = None
@@ -392,6 +395,10 @@ class Conn:
             self.send(chn, header.ContentHeader(0, len(b), h.properties))
             if b:
                 self.send(chn, body.ContentBody(b))
+        dbc = self.srv.deliver_before_confirm
+        if ok and (dbc == "always" or (dbc == "random" and self.srv.rnd is not None and self.srv.rnd.random() < 0.5)):
+            self.srv._kicked = False
+            self.srv.dispatch()  # deliveries go on the wire now, ahead of the confirm below
         if ch.confirm:
             ch.ptag += 1
             self.send(chn, spec.Basic.Ack(delivery_tag=ch.ptag))
